@@ -897,6 +897,33 @@ def fkc_correspond(ctx, corr, days, shard=500):
     corr.dist["crop-coefficient:later-stages"] = sum(1 for d in pts if d["grown"] and d["o_k"] > 0)
 
 
+def maint_correspond(ctx, corr, days, shard=500):
+    """maintenance of radia() (RadiaModel.maint_pot_of, mant_of): MAINTS*TEFF and the organs' shares MANT of the real kernel"""
+    pts = [d for d in days if d["grown"] and d.get("a_ok") and "m_worg" in d]
+    recs = ["{| mto_worg := %s; mto_mairt := %s; mto_teff := %s; mto_o_pot := %s; mto_o_mant := %s |}"
+            % (fls(d["m_worg"]), fls(d["m_mairt"]), fl(d["m_teff"]), fl(d["a_mpot"]), fls(d["m_o_mant"])) for d in pts]
+    items = []
+    for k in range(0, len(recs), shard):
+        body = HDR + ["Definition cases : list maint_obs := [\n%s\n]." % ";\n".join(recs[k:k + shard]),
+                      "Definition M := Eval vm_compute in maint_mismatches %d%%nat cases." % k, "Print M."]
+        items.append(("Cases_c09maint_%d" % (k // shard), "\n".join(body) + "\n"))
+    for nm, rc2, o in ctx.coq_eval_many(items, timeout=900):
+        m = re.search(r"M\s*=\s*(.*?)\s*:\s*list \(nat \* nat\)", o, re.S)
+        if rc2 != 0 or not m:
+            corr.mismatches.append({"kind": "coq-eval", "shard": nm, "output": o[-1500:]})
+            continue
+        pairs = re.findall(r"\(\s*(\d+)(?:%nat)?\s*,\s*(\d+)(?:%nat)?\s*\)", m.group(1))
+        if m.group(1).strip() != "[]" and not pairs:
+            corr.mismatches.append({"kind": "coq-eval", "shard": nm, "output": o[-1500:]})
+        for idx, mask in pairs[:10]:
+            d = pts[int(idx)]
+            corr.mismatches.append({"kind": "maintenance-kernel", "differs": [n for j, n in enumerate(["MAINTS*TEFF", "MANT"]) if int(mask) >> j & 1],
+                                    "crop": d["crop"], "zeit": d["zeit"], "line": d["line"],
+                                    "case": {k: d[k] for k in d if k.startswith("m_") or k == "a_mpot"}})
+    corr.cases += len(recs)
+    corr.dist["maintenance-days"] = len(recs)
+
+
 def dl_run(ctx):
     return waterlib.run_harness(ctx, "c09dl", ["-seed", str(ctx.seed), "-n", "4000" if ctx.thorough else "500"])
 
@@ -970,6 +997,7 @@ def correspond(ctx):
     supply_correspond(ctx, c, days)
     pool_correspond(ctx, c, days)
     fkc_correspond(ctx, c, days)
+    maint_correspond(ctx, c, days)
     seen = set()
     for d in days:
         c.bump("crop=" + d["crop"])
